@@ -134,6 +134,16 @@ def run(ctx):
         ctx.ob("C20.2", "accept-thread|flag-checked-before-every-accept", "the accept loop tests the close flag before each accept and leaves when it is set", ok, a.loc(lb))
         r_ = a.reach([a.normal_target(accepts[0])], blocked={lb}, unwind=False)
         ctx.ob("C20.2", "accept-thread|no-accept-without-check", "no second accept happens without re-testing the flag", accepts[0] not in r_, a.loc(accepts[0]))
+        # every way round in the accept thread passes the flag test: a second loop inside it (waiting for a free slot, retrying) that does
+        # not look at the flag keeps the thread -- and with it the listening socket -- alive after the server was dropped
+        blind = []
+        for b2, t2 in a.calls():
+            if a.blocks[b2]["cleanup"] or not a.in_loop(b2) or b2 == lb:
+                continue
+            tg = a.normal_target(b2)
+            if tg is not None and b2 in a.reach([tg], blocked={lb}, unwind=False):
+                blind.append("%s (%s)" % (short(call_name(t2)), a.loc(b2)))
+        ctx.ob("C20.2", "accept-thread|every-cycle-tests-the-flag", "every loop of the accept thread re-tests the close flag on each round", not blind, a.loc(lb), None if not blind else str(blind[:3]))
         r_stop = a.reach([stop], unwind=False)
         ctx.ob("C20.2", "accept-thread|exit-returns", "once the flag is set the thread returns (without accepting again)", accepts[0] not in r_stop and any(x in r_stop for x in a.returns()), a.loc(stop))
         # the flag loaded is the clone of the server's close flag
